@@ -742,7 +742,15 @@ func (h *StreamableHTTPHandler) serveStatefulPOST(w http.ResponseWriter, req *ht
 		})
 	}
 	h.mu.Lock()
-	h.sessions[transport.SessionID] = sessInfo
+	if session.calledOnClose.Load() {
+		// The session was closed (e.g. by the server, through Server.Sessions)
+		// after Connect returned but before it was published here: onClose has
+		// already run and found nothing to delete, so it will never remove this
+		// entry. Do not publish a dead session.
+		sessInfo.stopTimer()
+	} else {
+		h.sessions[transport.SessionID] = sessInfo
+	}
 	h.mu.Unlock()
 	defer func() {
 		// If initialization failed, clean up the session (#578).
